@@ -717,6 +717,17 @@ def has_side_effect(node: ast.AST, safe_callable_whitelist: Collection[str] = fr
         if isinstance(node.func, ast.Attribute) and isinstance(node.func.value, ast.Constant):
             safe_callable_whitelist = safe_callable_whitelist | {node.func.attr}
 
+        # sorted(x, key=f), map(f, x) and filter(f, x) call f
+        handed_callables = [keyword.value for keyword in node.keywords if keyword.arg == "key"]
+        if isinstance(node.func, ast.Name) and node.func.id in {"map", "filter"}:
+            handed_callables.extend(node.args[:1])
+        if not all(
+            isinstance(item, (ast.Lambda, ast.Constant))
+            or (isinstance(item, ast.Name) and item.id in safe_callable_whitelist)
+            for item in handed_callables
+        ):
+            return True
+
         return (
             not all(
                 child.id in safe_callable_whitelist or child.id == "_"
